@@ -294,9 +294,10 @@ class FnAnalysis:
             it = strip(it.args[0])
         if it.k == 'aggr' and it.name == 'Range::Range':
             return ('range', it, None)
-        if it.k == 'call' and last(it.name) in ('chunks_exact', 'chunks', 'windows', 'chunks_exact_mut', 'chunks_mut') and len(it.args) == 2:
+        if it.k == 'call' and last(it.name) in ('chunks_exact', 'chunks', 'windows', 'chunks_exact_mut', 'chunks_mut', 'rchunks_exact', 'rchunks_exact_mut') and len(it.args) == 2:
             kk = const_int(it.args[1])
-            return (last(it.name).replace('_mut', ''), it.args[0], kk)
+            # (chunks taken from the end have the same count and the same element length)
+            return (last(it.name).replace('_mut', '').replace('rchunks_exact', 'chunks_exact'), it.args[0], kk)
         return ('slice', it, None)
 
     def iter_count(self, it, block, depth):
